@@ -712,12 +712,22 @@ def check_c06(run):
         rule="HashTable histories with caller-supplied hashes (8 hash-plan classes incl. all-colliding; duplicates of identical ids; value-class predicates that match several entries; remove + re-insert through the returned VacantEntry; get_many_mut with colliding requests; iter_hash): every step bit-exact against the extracted model (C), the multiset acceptor MultisetSpec (A: an element inserted with hash h and matching the closure must be found; only live elements returned; iter_hash complete and duplicate free; len = multiset cardinality) and wf_check (B)",
         nontrivial_keys=("remove_reinsert", "get_many_mut_2plus", "iter_hash", "tombstones_present"))
 
+def gen_removal_scripts(tier, seed, variant):
+    rng = random.Random(seed + 11)
+    n = 24 if tier == "quick" else 80
+    out = [gen_iter_scripts(tier, seed, variant)]
+    for i in range(n):
+        out.append(gen_map.make_removal_script(rng, f"rm{seed}_{i}"))
+    for i in range(n // 2):
+        out.append(gen_table.make_removal_script(rng, f"rt{seed}_{i}"))
+    return "".join(out)
+
 def check_c10(run):
     ops = ("retain", "extractif", "drain", "tretain", "textractif", "tdrain")
     return script_property(
-        run, lambda tier, seed, v: gen_iter_scripts(tier, seed, v),
-        relevant=lambda f: f.kind == "CRASH" or (f.kind in ("A-FAIL", "H-FAIL", "B-FAIL") and (op_in(f, ops) or "retain called" in f.text)),
-        rule="HashMap / HashSet / HashTable histories rich in retain (random keep sets incl. none and all, values bumped through &mut), extract_if (random selections, dropped after 0, 1, some, all results) and drain (consumed 0, 1, some, all); the harness counts predicate calls (exactly one per element); survivors, yielded elements and the emptied-but-allocated table are compared with the extracted model bit for bit and with the reference map/multiset")
+        run, gen_removal_scripts,
+        relevant=lambda f: f.kind == "CRASH" or (f.kind in ("A-FAIL", "H-FAIL", "B-FAIL", "K-FAIL") and (op_in(f, ops) or "retain called" in f.text or (f.script or "").startswith(("rm", "rt")))),
+        rule="HashMap / HashSet / HashTable histories rich in retain (random keep sets incl. none and all, values bumped through &mut), extract_if (random selections, dropped after 0, 1, some, all results) and drain (consumed 0, 1, some, all); plus removal scripts on collision runs of 3..57 elements (keep / selection sets none, one, some, all; tombstones arise while the operation erases; afterwards the table is refilled and len / capacity / iteration / lookups are observed, every step of such a script is relevant); the harness counts predicate calls (exactly one per element); survivors, yielded elements and the emptied-but-allocated table are compared with the extracted model bit for bit and with the reference map/multiset")
 
 def check_c11(run):
     return script_property(
